@@ -6,7 +6,9 @@ From Mercure Require Export Hub HubCases SubCases.
 Record tpub := { tp_id : N; tp_ok : bool; tp_start : N; tp_end : N }.
 Record tsub := { ts_err : bool; ts_start : N; ts_end : N; ts_left : N; ts_received : list N; ts_closed : bool }.
 Record tobs := { to_pubs : list tpub; to_subs : list tsub; to_history : list N;
-                 to_close_start : N; to_close_end : N; to_panic : bool; to_deadlock : bool }.
+                 to_close_start : N; to_close_end : N; to_panic : bool; to_deadlock : bool;
+                 (* when some call of Close returned, a subscriber registered before that call began still had an open stream *)
+                 to_open_after_close : bool }.
 Record trans_case := { tc_persistent : bool; tc_cap : nat; tc_initial : list N; tc_reqs : list req;
                        tc_mt : list (nat * N); tc_obs : list tobs }.
 
@@ -96,7 +98,7 @@ Fixpoint forallb_i {A} (f : nat -> A -> bool) (i : nat) (l : list A) : bool :=
   match l with [] => true | x :: l' => f i x && forallb_i f (S i) l' end.
 
 Definition obs_ok (c : trans_case) (o : tobs) : bool :=
-  negb (to_panic o) && negb (to_deadlock o) &&
+  negb (to_panic o) && negb (to_deadlock o) && negb (to_open_after_close o) &&
   forallb (pub_ok c o) (to_pubs o) &&
   forallb_i (sub_ok c o) 0 (to_subs o) &&
   (* the stored history: the initial one, then the accepted publishes, each once *)
